@@ -44,6 +44,57 @@ Section P.
     - destruct (handled F c1); [destruct (sc_cleanup_reset S); simpl; discriminate|].
       destruct (tf_cleanup_in_finally F); destruct (sc_cleanup_reset S); simpl; discriminate.
   Qed.
+  (* the temporary directory is removed before the final reset is attempted: it is gone even when that reset fails *)
+  Theorem tmpdir_always_removed (S : scenario) :
+    tf_cleanup_in_finally F = true ->
+    rs_tmpdir (fst (run_tool commit F cur parent wr S)) = false.
+  Proof.
+    intros Hf. unfold run_tool.
+    destruct (body commit F cur parent wr S (RepoState cur true false)) as [[st1 exn] code].
+    destruct exn as [c|].
+    - rewrite Hf. unfold cleanup. destruct (sc_cleanup_reset S); reflexivity.
+    - unfold cleanup. destruct (sc_cleanup_reset S); reflexivity.
+  Qed.
+
+  (* converse of [exit_status_is_comparison_run]: the tool ends with an exit status (rather than a traceback) only
+     when every reset succeeded and both runs were launched, and the status is then the comparison run's - so a
+     missing, failing or interrupted step is never reported as a clean comparison.  Guard: no exception class raised
+     by the first run is among the handled ones (CalledProcessError is delivered as an exit status, not as a raise). *)
+  Theorem exit_code_sound (S : scenario) c :
+    (forall e, sc_run1 S = Raised e -> handled F e = false) ->
+    snd (run_tool commit F cur parent wr S) = ExitCode c ->
+    sc_reset1 S = ResetDone /\ sc_reset2 S = ResetDone /\ sc_cleanup_reset S = ResetDone /\
+    (exists c1, sc_run1 S = Exited c1) /\ sc_run2 S = Exited c.
+  Proof.
+    intros Hh. unfold run_tool, body, cleanup.
+    destruct (sc_reset1 S); [|destruct (tf_cleanup_in_finally F); destruct (sc_cleanup_reset S); simpl; discriminate].
+    destruct (sc_run1 S) as [c1|e1].
+    - destruct (sc_reset2 S); [|destruct (tf_cleanup_in_finally F); destruct (sc_cleanup_reset S); simpl; discriminate].
+      destruct (sc_run2 S) as [c2|e2].
+      + destruct (sc_cleanup_reset S); simpl; [|discriminate].
+        intro H. injection H as ->. repeat split; eauto.
+      + destruct (tf_cleanup_in_finally F); destruct (sc_cleanup_reset S); simpl; discriminate.
+    - rewrite (Hh e1 eq_refl).
+      destruct (tf_cleanup_in_finally F); destruct (sc_cleanup_reset S); simpl; discriminate.
+  Qed.
+
+  (* the report file exists afterwards only if the comparison run completed with status 0 or 1 *)
+  Theorem report_only_from_comparison_run (S : scenario) :
+    rs_report (fst (run_tool commit F cur parent wr S)) = true ->
+    sc_run2 S = Exited 0%Z \/ sc_run2 S = Exited 1%Z.
+  Proof.
+    unfold run_tool, body, cleanup.
+    destruct (sc_reset1 S); [|destruct (tf_cleanup_in_finally F); destruct (sc_cleanup_reset S); simpl; discriminate].
+    destruct (sc_run1 S) as [c1|c1].
+    - destruct (sc_reset2 S); [|destruct (tf_cleanup_in_finally F); destruct (sc_cleanup_reset S); simpl; discriminate].
+      destruct (sc_run2 S) as [c2|c2].
+      + assert (G : (wr && (Z.eqb c2 0 || Z.eqb c2 1))%bool = true -> Exited c2 = Exited 0%Z \/ Exited c2 = Exited 1%Z).
+        { intro H. apply andb_true_iff in H as [_ H]. apply orb_true_iff in H as [H|H]; apply Z.eqb_eq in H; subst; auto. }
+        destruct (sc_cleanup_reset S); simpl; exact G.
+      + destruct (tf_cleanup_in_finally F); destruct (sc_cleanup_reset S); simpl; discriminate.
+    - destruct (handled F c1); [destruct (sc_cleanup_reset S); simpl; discriminate|].
+      destruct (tf_cleanup_in_finally F); destruct (sc_cleanup_reset S); simpl; discriminate.
+  Qed.
 End P.
 
 (* without the finally, a subprocess that cannot be launched leaves the branch on the parent commit and
